@@ -17,7 +17,7 @@ from . import ops as O
 from .ops import And, Or, Not, ite, Implies
 from .tensor import Tn, Cell, Unsupported, basic_index, norm_slice
 from .values import (SymRaise, PathEnd, SStr, DType, Opaque, LibFn, BoundMethod, RepoFn, PyType,
-                     Iter, CatList, StackList, UNDEF, ModuleRef, StarAbstract)
+                     Iter, CatList, StackList, UNDEF, ModuleRef, StarAbstract, KeyedLists, KeyedListRef)
 
 
 class Obligation:
@@ -632,7 +632,8 @@ class Frame:
         seq = self.as_sequence(it)
         spec = self.I.world.loop_spec(self.qualname, myord)
         is_prange = getattr(seq, 'prange', False)
-        if is_prange and spec is None and isinstance(O.simp(seq.count), int):
+        small = bool(self.ctx.opts.get('small_scope'))
+        if is_prange and (spec is None or small) and isinstance(O.simp(seq.count), int) and O.simp(seq.count) <= (8 if spec is not None else MAX_UNROLL):
             items = [seq.item(i) for i in range(O.simp(seq.count))]
             for x in items:
                 self.assign(st.target, x)
@@ -644,7 +645,7 @@ class Frame:
                 finally:
                     self.ctx.prange.pop()
             return
-        if isinstance(seq, list) and spec is None:
+        if isinstance(seq, list) and (spec is None or (small and len(seq) <= 8)):
             if len(seq) > MAX_UNROLL:
                 raise Unsupported("loop too long to unroll")
             broke = False
@@ -770,7 +771,9 @@ class Frame:
         count = seq.count if is_for else None
 
         def inv_at(itv, where):
-            ev = EnvView(self.env, {'it': itv, 'count': count, 'old': spec.old_env, 'fr': self})
+            hyp = (where == 'assume')
+            ev = EnvView(self.env, {'it': itv, 'count': count, 'old': spec.old_env, 'fr': self, 'where': where,
+                                    'forall': (O.forall_hyp if hyp else O.forall)})
             try:
                 return spec.inv(ev, self)
             except InvariantNotApplicable as e:
@@ -803,6 +806,10 @@ class Frame:
                     self.havoc_cell(nme, v)
                 elif isinstance(v, (list, CatList, StackList)):
                     self.env[nme] = self.havoc_value(nme, v, spec, 'h')
+                elif isinstance(v, KeyedLists):
+                    if not (spec.abstract and callable(spec.abstract.get(nme))):
+                        raise Unsupported("keyed list %s mutated in a cut loop without a definition" % nme)
+                    self.env[nme] = spec.abstract[nme](self, v, it)
                 elif isinstance(v, Opaque):
                     if spec.abstract and callable(spec.abstract.get(nme)):
                         spec.abstract[nme](self, v, it)   # installs the object's ghost state at iteration `it`
@@ -1205,7 +1212,7 @@ class Frame:
                 if r is not NotImplemented:
                     return r
             return BoundMethod(obj, a)
-        if isinstance(obj, (list, dict, str, tuple, SStr, CatList, StackList, set)):
+        if isinstance(obj, (list, dict, str, tuple, SStr, CatList, StackList, set, KeyedLists, KeyedListRef)):
             return BoundMethod(obj, a)
         if isinstance(obj, slice):
             return getattr(obj, a)
@@ -1256,7 +1263,7 @@ class Frame:
             if k not in base:
                 raise SymRaise('KeyError')
             return base[k]
-        if isinstance(base, (CatList, StackList, SStr, Opaque)):
+        if isinstance(base, (CatList, StackList, SStr, Opaque, KeyedLists)):
             return self.I.world.lib_call(self, 'getitem', [base, key], {'site': site})
         if isinstance(base, str):
             k = O.simp(key)
@@ -1355,6 +1362,10 @@ class Frame:
             return w.opaque_call(self, f, args, kwargs, site=site)
         if isinstance(f, PyType):
             return w.lib_call(self, 'type:' + f.name, args, kwargs, site=site)
+        if isinstance(f, DType):
+            # numpy.int64(x) / numpy.float64(x): scalar casts
+            nm = 'numpy.float64' if f.is_float else 'numpy.int64'
+            return w.lib_call(self, nm, args, kwargs, site=site)
         raise Unsupported("call of %r" % (f,))
 
 
